@@ -34,9 +34,19 @@ def _norm_value(s):
 def code_table(F, f):
     """{key: [(target, value)]} of one process_*_tuple function, by abstract evaluation per case label"""
     sws = [n for n in walk(f["body"]) if n.get("k") == "SwitchStmt"]
-    if len(sws) != 1:
-        raise AnalysisBroken("%s: expected one switch" % f["name"])
-    labels = [l for labs, st in switch_arms(sws[0]) for l in labs]
+    labels = [l for sw in sws for labs, st in switch_arms(sw) for l in labs]
+    # dispatch written as an if / else-if chain: keys compared with the key parameter
+    keyp = f["params"][1]["id"] if len(f["params"]) > 1 else None
+    for n in walk(f["body"]):
+        if n.get("k") == "BinaryOperator" and n.get("op") in ("==", "!="):
+            a, b = [strip_all(x) for x in n["c"]]
+            for x, y in ((a, b), (b, a)):
+                if x.get("k") == "DeclRefExpr" and x.get("id") == keyp and ("iv" in y or y.get("k") == "IntegerLiteral"):
+                    lab = str(y.get("iv", y.get("v")))
+                    if lab not in [str(l) for l in labels]:
+                        labels.append(lab)
+    if not labels:
+        raise AnalysisBroken("%s: no key dispatch (switch or == chain) found" % f["name"])
     tgt = f["params"][0]
     out = {}
     for lab in labels + ["unknown"]:
